@@ -2,6 +2,7 @@ SPECIFICATION MCSpec
 CONSTANTS
   MinN = 1
   MaxN = 3
+INVARIANT KeysAreContributors
 INVARIANT Once
 INVARIANT BasesFirst
 INVARIANT ReportIffCyclic
